@@ -12,5 +12,5 @@ for pf in sorted(glob.glob(os.path.join(out, "refactor_*.diff"))):
     shutil.copy(pf, d + "/patch.diff")
     json.dump({"summary": meta.get("summary"), "kind": meta.get("kind"), "why_equivalent": meta.get("why_equivalent"), "suite_passes_debug": meta.get("suite_passes_debug"),
                "suite_passes_release": meta.get("suite_passes_release"), "checks_fired": {}, "silent": None,
-               "source": "independent sub-agent asked for behaviour-preserving refactorings of one area (round 2)"}, open(d + "/meta.json", "w"), indent=1, ensure_ascii=False)
+               "source": "independent sub-agent asked for behaviour-preserving refactorings of one area"}, open(d + "/meta.json", "w"), indent=1, ensure_ascii=False)
     print("stored", d)
